@@ -469,6 +469,39 @@ func c05RawStdout(run *ev.Run, j treeJob, data []byte, root *decode.Value, picke
 		base = append(base, "-o", "force=true")
 	}
 	cases = append(cases, rc{append(append([]string{}, base...), "tobytes", "input"), data, "root:tobytes"})
+	// the same buffer written twice in one run (a shared reader that is left at its end after the first write
+	// would make the second output empty: seed C05-D)
+	if len(data) <= 1<<20 {
+		cases = append(cases, rc{append(append([]string{}, base...), "tobytes, tobytes", "input"), append(append([]byte{}, data...), data...), "root:tobytes-twice"})
+	}
+	// values of nested buffers (decompressed / reassembled data): reference = the nested root's own reader
+	nestedTries := 0
+	for _, p := range picked {
+		if nestedTries >= 4 {
+			break
+		}
+		if p.BufRoot == root && !(p.V.IsRoot && p.V != root) || isSynthetic(p.V) {
+			continue
+		}
+		if _, isC := p.V.V.(*decode.Compound); isC && !p.V.IsRoot {
+			continue
+		}
+		ref, err := refBits(p, root, data)
+		if err != nil || ref.n > 1<<23 {
+			continue
+		}
+		nestedTries++
+		want := leftPadToByte(ref).bytesPadded()
+		what := "nested-value:tobytes"
+		if p.V.IsRoot {
+			what = "nested-root:tobytes"
+		}
+		cases = append(cases, rc{append(append([]string{}, base...), "--", jqPathExpr(p.Path)+" | tobytes", "input"), want, what})
+		if nestedTries == 1 {
+			e := jqPathExpr(p.Path) + " | tobytes"
+			cases = append(cases, rc{append(append([]string{}, base...), "--", "("+e+"), ("+e+")", "input"), append(append([]byte{}, want...), want...), what + "-twice"})
+		}
+	}
 	tries := 3
 	generated := strings.HasPrefix(j.Label, "generated:")
 	if generated {
